@@ -129,7 +129,8 @@ def gen_cases(tier, seed, prop):
     hostile = [i for i in workload.HOSTILE if i in isos] + ["WOR"]
     cases = []
     if tier == "quick":
-        sel = workload.rotate(hostile, seed)[:14] + rnd.sample(isos, 10)
+        # the world row always (the only row where every species coexists), the other hostile rows in rotation
+        sel = ["WOR"] + [i for i in workload.rotate(hostile, seed) if i != "WOR"][:13] + rnd.sample(isos, 10)
         per = 4
     else:
         sel = isos + ["WOR"]
